@@ -463,31 +463,34 @@ def analyze [DecidableEq M] (g : Game P M) (cfg : Cfg) (o : Oracle M) (p : P) (s
 /-- the generator literal of `GetMove`/`AnalyzeAll`: `ply 0`, no table entry -/
 def rootMG (depth : Int) (pv : List M) : MG M := ⟨0, depth, none, pv⟩
 
+/-- body of the loop of `AnalyzeAll`: the child is searched with the window `(-v-1, -v+1)`; it is listed when its
+value is exactly `v` and its move is not the first PV move -/
+def aaBody [DecidableEq M] (g : Game P M) (cfg : SOpts) (o : Oracle M) (depth : Int) (pv0 : M) (rest : List M)
+    (v : Int) (m : M) (child : P) (out : List (List M)) (s : Eng M) :
+    Except Err (Ctl (List (List M)) Unit × Eng M) := do
+  let sm ← setA s.stackM 0 m "stack[0].m"
+  let r ← pvSearch g cfg o 1 child (depth - 1) rest (-v - 1) (-v + 1) { s with stackM := sm }
+  if -r.1.2 != v then pure (.next out, r.2)
+  else if g.moveEq m pv0 then pure (.next out, r.2)
+  else pure (.next (out ++ [m :: r.1.1.getD []]), r.2)
+
+/-- the part of `AnalyzeAll` after `Analyze` returned `(pv, v, st)` -/
+def analyzeAllFrom [DecidableEq M] (g : Game P M) (cfg : Cfg) (o : Oracle M) (p : P)
+    (pv : List M) (v : Int) (st : Stats) (s : Eng M) : Except Err ((List (List M) × Int × Stats) × Eng M) :=
+  match pv with
+  | [] => .ok (([], v, st), s)
+  | pv0 :: rest =>
+    match iterate g cfg.opts o p (rootMG st.depth pv) (aaBody g cfg.opts o st.depth pv0 rest v) [pv] s with
+    | .error e => .error e
+    | .ok (.next out, s) | .ok (.brk out, s) => .ok ((out, v, st), s)
+    | .ok (.ret _, s) => .ok (([pv], v, st), s)
+
 /-- `AnalyzeAll` -/
 def analyzeAll [DecidableEq M] (g : Game P M) (cfg : Cfg) (o : Oracle M) (p : P) (s : Eng M) :
     Except Err ((List (List M) × Int × Stats) × Eng M) :=
   match analyze g cfg o p s with
   | .error e => .error e
-  | .ok ((pv, v, st), s) =>
-    match pv with
-    | [] => .ok (([], v, st), s)
-    | pv0 :: rest =>
-      let body : M → P → List (List M) → Eng M → Except Err (Ctl (List (List M)) Unit × Eng M) :=
-        fun m child out s =>
-          match setA s.stackM 0 m "stack[0].m" with
-          | .error e => .error e
-          | .ok sm =>
-            let s := { s with stackM := sm }
-            match pvSearch g cfg.opts o 1 child (st.depth - 1) rest (-v - 1) (-v + 1) s with
-            | .error e => .error e
-            | .ok ((ms, cv), s) =>
-              if -cv != v then .ok (.next out, s)
-              else if g.moveEq m pv0 then .ok (.next out, s)
-              else .ok (.next (out ++ [m :: ms.getD []]), s)
-      match iterate g cfg.opts o p (rootMG st.depth pv) body [pv] s with
-      | .error e => .error e
-      | .ok (.next out, s) | .ok (.brk out, s) => .ok ((out, v, st), s)
-      | .ok (.ret _, s) => .ok (([pv], v, st), s)
+  | .ok ((pv, v, st), s) => analyzeAllFrom g cfg o p pv v st s
 
 structure GmAcc (M : Type) where
   rv : M
